@@ -217,17 +217,23 @@ Theorem stems_round_trip (t : snode) (r : SplitResult) (ou ow : option str) (hp 
   re_split PORT_SPLITTER_f PORT_SPLITTER PORT_SPLITTER_g hp None
     = Some host :: (match oport with Some p => [Some p] | None => [] end) ->
   hp = host ++ (match oport with Some p => 58 :: p | None => [] end) ->
-  is_special_host host = false ->
   (path r = [] \/ exists p, path r = 47 :: p) ->
   lru_to_url_stems (lru_stems_from_parsed t r false) = Ok (urlunsplit r).
 Proof.
-  intros Hauth Hsp Hhp Hspecial Hpath.
+  intros Hauth Hsp Hhp Hpath.
   pose proof (auth_of_rejoin _ _ _ _ Hauth) as Hnl.
   unfold lru_to_url_stems, lru_stems_from_parsed. rewrite Hauth, Hsp. cbv zeta.
   assert (map oget (Some host :: match oport with Some p => [Some p] | None => [] end)
           = host :: match oport with Some p => [p] | None => [] end) as -> by (destruct oport; reflexivity).
-  rewrite Hspecial.
-  set (hosts := map (tag "h:") (rev (split_c 46 host))).
+  set (labels := if is_special_host host then [host] else rev (split_c 46 host)).
+  assert ((if is_special_host host then [tag "h:" host] else map (tag "h:") (rev (split_c 46 host))) = map (tag "h:") labels) as ->
+    by (unfold labels; destruct (is_special_host host); reflexivity).
+  assert (labels <> []) as Hne.
+  { unfold labels. destruct (is_special_host host); [discriminate|].
+    intros E; apply (f_equal (@rev str)) in E; rewrite rev_involutive in E; cbn in E; eapply split_c_nonempty; exact E. }
+  assert (join [46] (rev labels) = host) as Hjoin.
+  { unfold labels. destruct (is_special_host host); [reflexivity|]. rewrite rev_involutive. apply join_split_c. }
+  set (hosts := map (tag "h:") labels).
   set (paths := map (tag "p:") (tl (split_c 47 (path r)))).
   set (qs := match query r with [] => [] | q => [tag "q:" q] end).
   set (fs := match fragment r with [] => [] | f => [tag "f:" f] end).
@@ -238,7 +244,7 @@ Proof.
                                   hosts ++ paths ++ qs ++ fs ++ us ++ ws) ix
                      = Ok {| i_s := match scheme r with [] => i_s ix | s => Some s end;
                              i_t := match oport with Some p => Some p | None => i_t ix end;
-                             i_h := fold_left hstep (rev (split_c 46 host)) (i_h ix);
+                             i_h := fold_left hstep labels (i_h ix);
                              i_p := fold_left pstep (tl (split_c 47 (path r))) (i_p ix);
                              i_q := match query r with [] => i_q ix | q => Some q end;
                              i_f := match fragment r with [] => i_f ix | f => Some f end;
@@ -269,7 +275,7 @@ Proof.
       - change (tag "q:" (qc :: qr)) with (113 :: 58 :: qc :: qr). rewrite index_tagged by discriminate.
         change (tag "f:" (fc :: fr)) with (102 :: 58 :: fc :: fr). rewrite index_tagged by discriminate. rewrite Huw. destruct ix0; reflexivity. }
     assert (forall ix0, index_stems (hosts ++ paths ++ qs ++ fs ++ us ++ ws) ix0
-              = Ok {| i_s := i_s ix0; i_t := i_t ix0; i_h := fold_left hstep (rev (split_c 46 host)) (i_h ix0);
+              = Ok {| i_s := i_s ix0; i_t := i_t ix0; i_h := fold_left hstep labels (i_h ix0);
                       i_p := fold_left pstep (tl (split_c 47 (path r))) (i_p ix0);
                       i_q := match query r with [] => i_q ix0 | q => Some q end;
                       i_f := match fragment r with [] => i_f ix0 | f => Some f end;
@@ -284,8 +290,7 @@ Proof.
     - change (tag "s:" (sc :: sr)) with (115 :: 58 :: sc :: sr). rewrite index_tagged by discriminate. rewrite Hhp'. destruct ix; reflexivity. }
   rewrite Hidx. cbn [bind]. unfold url_of_index, lidx0. cbn [i_s i_t i_h i_p i_q i_f i_u i_w].
   (* the host *)
-  rewrite hfold_none by (intros E; apply (f_equal (@rev str)) in E; rewrite rev_involutive in E; cbn in E; eapply split_c_nonempty; exact E).
-  rewrite rev_involutive, join_split_c. cbn [oget].
+  rewrite hfold_none by exact Hne. rewrite Hjoin. cbn [oget].
   (* the path *)
   assert (match fold_left pstep (tl (split_c 47 (path r))) None with Some p => 47 :: p | None => [] end = path r) as ->.
   { destruct Hpath as [E|[p E]]; rewrite E.
